@@ -38,6 +38,9 @@ ASSUMPTIONS = [
   "error messages in answer to unknown buffer ids or ports are allowed here (their presence is C13's concern)",
   "while the actions of a buffer use are running, the id being used may or may not count as occupied (both orders of free/process are accepted)",
   "a barrier request follows every state-changing controller message, so no ordering freedom of the switch is judged",
+  "some packet-outs / flow-mods that use a buffer are built with POX's own controller-side classes from the received packet-in "
+  "(flow_mod.data = packet_in) and packed by them; that is stimulus only, every judgement still comes from the independent codec and model",
+  "set_config is sent with fragment-handling flags 0, 1 or 2; its miss_send_len binds later packet-ins whatever the flags",
 ]
 EXHAUSTIVE_SCOPE = {
   "quick": "all histories of length 1..4 over the 13-op alphabet _ALPHABET, for max_buffers in {0,1,2}, miss_send_len 20",
@@ -92,6 +95,20 @@ def _split_bad(acts):
   return acts, False
 
 
+def _pox_idiom(message, packet_in_raw):
+  """Decode `message` (a packet-out or flow-mod without buffer id, from the independent codec) and the switch's
+  packet-in with POX's own classes, attach the packet-in as the message's data the way POX controllers do, and
+  let POX pack it.  This is stimulus, not oracle: it is what the controller side of POX puts on the wire."""
+  import pox.openflow.libopenflow_01 as of
+  pi = of.ofp_packet_in()
+  pi.unpack(packet_in_raw)
+  cls = of.ofp_packet_out if message[1] == cb.OFPT_PACKET_OUT else of.ofp_flow_mod
+  msg = cls()
+  msg.unpack(message)
+  msg.data = pi
+  return msg.pack()
+
+
 def _match_dst(k):
   wc = cb.OFPFW_ALL & ~cb.OFPFW_DL_DST
   return cb.match(wildcards=wc, dl_dst=_mac_dst(k))
@@ -104,6 +121,7 @@ class _Run(object):
     self.msl = case["miss_send_len"]
     self.sw = world.add_switch(DPID, ports=len(PORTS), max_buffers=self.maxb, miss_send_len=self.msl)
     self.pool = BufferPool(self.maxb)
+    self.pin_raw = {}         # buffer id -> the packet-in message that announced it, as sent by the switch
     self.nopin = set()        # ports with OFPPC_NO_PACKET_IN
     self.hw = {}
     self.risk = {}            # buffer id -> its packet object may have been rewritten after it was buffered
@@ -210,6 +228,7 @@ class _Run(object):
         reused_using = True
         self.out.label("pin-reuses-id-being-used")
       pool.store(bid, frame, in_port)
+      self.pin_raw[bid] = m["raw"]
       self.risk[bid] = risk
       occupied = len(pool.out) - (1 if (using is not None and using in pool.out and not reused_using) else 0)
       if occupied > self.maxb:
@@ -300,13 +319,27 @@ class _Run(object):
     limbo = pool.limbo.get(bid) if stored is None else None
     known = stored or limbo
     raw_acts = encode_actions(_model_acts(acts))
+    # "idiom": the message is built the way POX controllers do it -- with POX's own message classes, handing the
+    # received packet-in over as `data` (ofp_flow_mod(data=packet_in) / ofp_packet_out(data=packet_in)) -- and packed
+    # by them; it must reference the buffer exactly like a message that names the id directly
+    idiom = bool(op.get("idiom")) and known is not None and bid in self.pin_raw
+    if idiom:
+      self.out.label("use-%s-via-pox-idiom" % via)
     if via == "pout":
       in_port = known[1] if known else PORTS[op.get("port", 0) % len(PORTS)]
-      self.send(cb.packet_out(self.nxid(), buffer_id=bid, in_port=in_port, actions=raw_acts), barrier=True)
+      if idiom:
+        wire = _pox_idiom(cb.packet_out(self.nxid(), buffer_id=cb.NO_BUFFER, in_port=cb.OFPP_NONE, actions=raw_acts), self.pin_raw[bid])
+      else:
+        wire = cb.packet_out(self.nxid(), buffer_id=bid, in_port=in_port, actions=raw_acts)
+      self.send(wire, barrier=True)
     else:
       slot = op["slot"]
       cmd = {"add": cb.OFPFC_ADD, "modify": cb.OFPFC_MODIFY, "modify_strict": cb.OFPFC_MODIFY_STRICT}[op.get("cmd", "add")]
-      self.send(cb.flow_mod(self.nxid(), _match_dst(slot), command=cmd, buffer_id=bid, actions=raw_acts), barrier=True)
+      if idiom:
+        wire = _pox_idiom(cb.flow_mod(self.nxid(), _match_dst(slot), command=cmd, buffer_id=cb.NO_BUFFER, actions=raw_acts), self.pin_raw[bid])
+      else:
+        wire = cb.flow_mod(self.nxid(), _match_dst(slot), command=cmd, buffer_id=bid, actions=raw_acts)
+      self.send(wire, barrier=True)
       self.flows[slot] = acts
     where = "%s-%s" % (via, how)
     msgs = self.recv(where)
@@ -390,7 +423,11 @@ class _Run(object):
     self.split_msgs(self.recv("flow-del"), "flow-del")
 
   def op_set_config(self, op):
-    self.send(cb.set_config(self.nxid(), 0, op["len"]), barrier=True)
+    # flags: fragment handling (0 normal, 1 drop, 2 reassemble); the frames here are not IP, and whichever mode is asked
+    # for, the miss_send_len of the message is what later packet-ins are bound by
+    flags = op.get("flags", 0)
+    self.send(cb.set_config(self.nxid(), flags, op["len"]), barrier=True)
+    self.out.label("set-config-flags-%d" % flags)
     self.msl = op["len"]
     self.split_msgs(self.recv("set-config"), "set-config")
 
@@ -486,8 +523,8 @@ _ALPHABET = [
   {"o": "pout", "buf": {"k": "used", "i": 0}, "acts": [["port", 2]]},
   {"o": "pout", "buf": {"k": "zero"}, "acts": [["flood"]]},
   {"o": "flow", "slot": 0, "buf": None, "acts": [["ctl", 16]], "cmd": "add"},
-  {"o": "flow", "slot": 1, "buf": {"k": "live", "i": 0}, "acts": [["port", 3]], "cmd": "add"},
-  {"o": "set_config", "len": 14},
+  {"o": "flow", "slot": 1, "buf": {"k": "live", "i": 0}, "acts": [["port", 3]], "cmd": "add", "idiom": True},
+  {"o": "set_config", "len": 14, "flags": 2},
   {"o": "pout", "buf": {"k": "live", "i": 0}, "acts": [["ctl", 16]]},
   {"o": "pout", "buf": {"k": "live", "i": 0}, "acts": [["port", 2], ["vendor", 0x2320], ["port", 3]]},
   {"o": "flow", "slot": 1, "buf": None, "acts": [["set_vlan_vid", 5], ["ctl", 20], ["set_vlan_pcp", 3]], "cmd": "add"},
@@ -544,11 +581,13 @@ def _s_op():
   frame = st.fixed_dictionaries({"o": st.just("frame"), "dst": st.integers(0, 3), "port": st.integers(0, 3),
                                  "len": st.one_of(st.sampled_from(_LENS), st.integers(14, 400)), "fill": st.integers(0, 255),
                                  "vlan": st.one_of(st.none(), st.none(), st.tuples(st.sampled_from([0, 1, 9, 0xfff]), st.integers(0, 7)).map(list))})
-  pout = st.fixed_dictionaries({"o": st.just("pout"), "buf": _s_buf(), "acts": _s_acts(), "port": st.integers(0, 3)})
+  idiom = st.sampled_from([False, False, True])
+  pout = st.fixed_dictionaries({"o": st.just("pout"), "buf": _s_buf(), "acts": _s_acts(), "port": st.integers(0, 3), "idiom": idiom})
   flow = st.fixed_dictionaries({"o": st.just("flow"), "slot": st.integers(0, 3), "buf": st.one_of(st.none(), _s_buf()),
-                                "acts": _s_acts(), "cmd": st.sampled_from(["add", "add", "modify", "modify_strict"])})
+                                "acts": _s_acts(), "cmd": st.sampled_from(["add", "add", "modify", "modify_strict"]), "idiom": idiom})
   flow_del = st.fixed_dictionaries({"o": st.just("flow_del"), "slot": st.integers(0, 3)})
-  setc = st.fixed_dictionaries({"o": st.just("set_config"), "len": st.one_of(st.sampled_from(_CFG), st.integers(0, 0xffff))})
+  setc = st.fixed_dictionaries({"o": st.just("set_config"), "len": st.one_of(st.sampled_from(_CFG), st.integers(0, 0xffff)),
+                                "flags": st.sampled_from([0, 0, 1, 2, 2])})
   feat = st.just({"o": "features"})
   pmod = st.fixed_dictionaries({"o": st.just("port_mod"), "port": st.integers(0, 3), "on": st.booleans()})
   return st.one_of(frame, frame, frame, frame, frame, pout, pout, pout, flow, flow, flow_del, setc, feat, pmod)
